@@ -61,12 +61,13 @@ struct Frame {                      // one decoded unit of daemon output on a co
 };
 
 struct Exp {
-	enum Kind { RESP, NOTIFY, ROUTED, CLOSE } kind = RESP;
+	enum Kind { RESP, NOTIFY, ROUTED, CLOSE, PONG } kind = RESP;
 	enum RK { R_TRUE, R_ERR_DAEMON, R_RESULT_EQ, R_ERROR_EQ, R_EITHER, R_ANYRESULT, R_GETSET, R_ERR_OR_GETSET } rk = R_TRUE;
 	JV id;                      // RESP: expected id
 	JV payload;                 // RESP *_EQ / GETSET
 	JV fetchid; std::string event, path; bool check_value = false; bool has_value = false; JV value; // NOTIFY
 	JV params; int routed_ref = -1; // ROUTED
+	int ws_status = 0; bool need_frame = false, got_frame = false; // CLOSE on a WebSocket connection: required close-frame status (0 any, 10027 = 1002 or 1007)
 	std::string prop;           // property that owns this expectation
 	int rank = 0;               // within a group lower ranks must be matched first
 	uint64_t group = 0;
@@ -136,7 +137,7 @@ struct Model {
 	void on_connect(int c, const std::string &transport, bool local);
 	// returns false when the message makes the daemon drop the connection
 	bool on_message(int c, const std::string &text);
-	void on_peer_gone(int c, bool expect_close);
+	void on_peer_gone(int c, bool expect_close, int ws_status = 0, bool need_frame = false, const std::string &close_prop = "C05");
 	void on_timer_armed(int fd, uint64_t ns);
 	void on_timer_fired(int fd);
 	void on_timer_closed(int fd);
